@@ -259,7 +259,6 @@ class _StreamScript:
         self.written = bytearray()
         self.wblocks = dict(wblocks)
         self.wbounds = sorted(set(wcuts) | set(wblocks))
-        self.read_before_write_done = False
 
     def _next_rbound(self):
         for b in self.rbounds:
@@ -897,8 +896,6 @@ def run_tcp(case):
     if obs == ("raise", "Timeout") and timeout is not None and abs(CLOCK.now - (1000.0 + timeout)) > 1e-9:
         probs.append(("timeout-before-deadline", "Timeout raised at t=%.2f, deadline %.2f"
                       % (CLOCK.now - 1000.0, timeout)))
-    if is_async and entry == "async.tcp" and sock.peer_asked == 0 and obs[0] != "raise":
-        pass  # connectivity probe is an implementation detail, not part of the property
     return [("C18/%s/%s" % (fn, s), w) for s, w in probs], oname(obs)
 
 
